@@ -13,7 +13,12 @@ PROPS_MODULE = "NumbersModel.Props.C04"
 THEOREMS = [f"NumbersModel.Props.C04.{t}" for t in (
     "decode_encode", "decode_specEncode", "uninterpreted_fields_do_not_matter", "encode_is_spec_layout",
     "encode_length_aligned", "flags_word_matches_fields", "extras_byte_spec", "encode_none_iff",
-    "pinned_richtext_shifts_fields", "pinned_late_skip_misreads_formula")]
+    "pinned_richtext_shifts_fields", "pinned_late_skip_misreads_formula",
+    # the flags-driven field walk of Cell._from_storage as py2lean regenerates it from cell.py on every run, proved equal to
+    # the model for every buffer, and decode_encode / decode_specEncode restated over the translation
+    "Src.src_from_storage_fields_eq_model", "Src.src_from_storage_eq_model", "Src.src_decode_encode",
+    "Src.src_decode_specEncode")]
+TRANSLATED_GROUPS = ("CellRec",)
 PARTIAL: dict = {}
 RULE = ("exhaustive: 8 encodable kinds x all 2^12 subsets of the optional reference ids x string-id present/absent "
         "(65 536 cells, distinct sentinel ids) through the real Cell._to_buffer and Cell._from_storage with a stub "
@@ -29,7 +34,14 @@ MANIFEST = {
             "skipped in place - corollary uninterpreted_fields_do_not_matter), encode_is_spec_layout (the encoder's output IS "
             "a layout-conformant record), encode_length_aligned, flags_word_matches_fields, extras_byte_spec. The model is "
             "tied to Cell._to_buffer/_from_storage by exhaustive correspondence over kinds x 2^13 attribute subsets and "
-            "(thorough) all 2^21 flag subsets of spec-encoded records.",
+            "(thorough) all 2^21 flag subsets of spec-encoded records. Second tie: the field walk of Cell._from_storage "
+            "(version check, flags, the nineteen `if flags & mask:` blocks up to `cell_type = buffer[1]`) is additionally "
+            "TRANSLATED from cell.py on every run (harness/py2lean.py group CellRec -> Gen/TrCellRec.lean) and proved equal to "
+            "the model's walk for EVERY buffer, one block at a time (Src.src_from_storage_fields_eq_model; `flags & mask` on the "
+            "signed int32 is the bit of its unsigned view: flag_eq); the model's decode is that walk followed by the dispatch "
+            "(Src.src_from_storage_eq_model), so decode_encode / decode_specEncode hold with the walk of the source as it is now "
+            "(Src.src_decode_encode, Src.src_decode_specEncode); every _from_storage request also goes through the translated "
+            "walk (trdriver). Cell._to_buffer and the class dispatch are not translated (hand model only).",
     "note": "payload interpretation (_unpack_decimal128, struct '<d', timedelta) and string / rich-text table look-ups are "
             "parameters of the model (C01/C06); the style-object look-ups at the top of _to_buffer are outside the model. "
             "The independent layout encoder exists twice (Lean specEncode, Python spec_encode) and the two are compared.",
@@ -330,7 +342,7 @@ def _run(ctx: Ctx, im: Impl, rng):
                 continue
             _check_roundtrip(ctx, im, kind, value, payload, key, sid, ids, bytes(buf))
     ctx.correspond("_to_buffer: 8 kinds x 2^12 id subsets x string-id on/off", req_e, out_e, exhaustive=True)
-    ctx.correspond("_from_storage on every record produced above", req_d, out_d, exhaustive=True)
+    ctx.correspond("_from_storage on every record produced above", req_d, out_d, exhaustive=True, translated=True)
 
     # ---- 2. not-stored kinds, out-of-range ids, None key -------------------------------------------------
     req, out = [], []
@@ -424,7 +436,7 @@ def _run(ctx: Ctx, im: Impl, rng):
     ctx.correspond("spec encoder: Python layout encoder vs Lean specEncode (sampled 1/16)", req_s, out_s)
     ctx.correspond("_from_storage on layout-encoded records: " +
                    ("all 2^21 flag subsets" if not ctx.quick else "2^5 uninterpreted x 2048 subsets of the rest"),
-                   req_d, out_d, exhaustive=not ctx.quick)
+                   req_d, out_d, exhaustive=not ctx.quick, translated=True)
 
     # ---- 4. malformed: every prefix of some records, versions, unknown types, sign bit in flags ----------
     req, out = [], []
@@ -443,7 +455,8 @@ def _run(ctx: Ctx, im: Impl, rng):
         rec = bytes([5, 0]) + b"\0" * 6 + struct.pack("<I", fl) + bytes(range(1, nf + 1))
         req.append("cell dec " + enc_bytes(rec))
         out.append(im.decode(rec)[1])
-    ctx.correspond("_from_storage: every prefix of two records, version/type grid, high flag bits", req, out, exhaustive=True)
+    ctx.correspond("_from_storage: every prefix of two records, version/type grid, high flag bits", req, out, exhaustive=True,
+                   translated=True)
 
     # ---- 5. records Numbers itself wrote: decoder vs the published layout on fixture documents ------------
     _fixtures(ctx, im)
